@@ -205,6 +205,9 @@ fn eval_prefix(prefixes: &BTreeMap<String, Numeric>, expr: &Expr) -> Result<Nume
                 .to_int()
                 .and_then(|value| value.try_into().ok())
                 .ok_or_else(|| "Exponent is too big".to_string())?;
+            if right < 0 && (left == Numeric::zero() || left == Numeric::Float(0.0)) {
+                return Err("Division by zero".to_string());
+            }
             Ok(left.pow(right))
         }
         Expr::UnaryOp(UnaryOpExpr {
